@@ -57,6 +57,7 @@ S0 == [ phase   |-> "run",   \* run | unwind | end
         pend    |-> EmptyF,    \* connection -> digests read from the shared transport, not yet handed to a reader
         ops     |-> EmptyF,    \* op id -> [kind r/w, conn, x, st pend/ok/err]
         wrq     |-> {},      \* write ops whose envelope has not reached the shared transport
+        broken  |-> {},      \* connections whose writer goroutine has gone (the shared transport refused one of its writes)
         stopped |-> FALSE, runret |-> FALSE,
         stuck   |-> FALSE,   \* harness: the shared transport blocks writers
         hold    |-> FALSE,   \* harness: the shared transport withholds input
@@ -152,6 +153,16 @@ TSharedOut ==
                IN s' = [s EXCEPT !.nOut = @ + 1, !.wrq = @ \ {c}]
        ELSE s' = [s EXCEPT !.nOut = @ + 1]
 
+\* the shared transport refuses one write (a transient error): that envelope is lost, the writer goroutine of the
+\* connection it came from is gone for good (demux.go: `if err != nil { return }`) - and that is all: neither the
+\* key's current incarnation nor any other connection is touched
+TRefused ==
+  /\ IsR("Refused")
+  /\ LET cand == {c \in s.wrq : s.ops[c].x = E.x} IN
+     /\ cand # {}
+     /\ LET c == CHOOSE c \in cand : \A d \in cand : c <= d
+        IN s' = [s EXCEPT !.wrq = @ \ {c}, !.broken = @ \cup {s.ops[c].conn}]
+
 (* ------------------------------ Cancel, Stop --------------------------- *)
 
 TCancel ==
@@ -236,7 +247,8 @@ QReads == \A c \in PendOps : s.ops[c].kind = "r" =>
 \* a write that the (stuck) shared transport has not taken yet, or after Stop
 QWrites == \A c \in PendOps : s.ops[c].kind = "w" =>
              /\ On("cancel") => s.ops[c].conn \notin s.dead
-             /\ On("pass") => (s.ops[c].conn \in s.dead \/ s.stopped \/ (s.stuck /\ AcceptedNotOut(s.ops[c].conn)))
+             /\ On("pass") => (s.ops[c].conn \in s.dead \/ s.stopped \/ (s.stuck /\ AcceptedNotOut(s.ops[c].conn))
+                               \/ s.ops[c].conn \in s.broken)
 \* an accepted write has reached the shared transport
 QPassed == \A c \in s.wrq : s.ops[c].st = "ok" => (s.stuck \/ s.stopped)
 QStopped == s.stopped => (s.runret \/ s.parked > 0)
@@ -266,7 +278,7 @@ TUw == /\ l <= Len(Trace) /\ s.phase = "unwind"
 TEnd == Is("End") /\ s.phase = "unwind" /\ s' = [s EXCEPT !.phase = "end"]
 
 TraceNext ==
-  \/ TBegin \/ TIn \/ TSharedIn \/ TNewConn \/ TLRead \/ TLReadRet \/ TLWrite \/ TLWriteRet \/ TSharedOut
+  \/ TBegin \/ TIn \/ TSharedIn \/ TNewConn \/ TLRead \/ TLReadRet \/ TLWrite \/ TLWriteRet \/ TSharedOut \/ TRefused
   \/ TCancel \/ TCancelRet \/ TStop \/ TRunRet \/ TStuck \/ THold \/ TGatePark \/ TGatePass
   \/ TCallOf \/ TUCall \/ TURet \/ TSOpen \/ TSOpenRet \/ TSSend \/ TSSendRet \/ TSClose \/ TSCloseRet
   \/ TSRecv \/ TSRecvRet
